@@ -20,12 +20,47 @@ type ModSpec struct {
 	// PrivMem: the (own) memory is NOT exported: no other instance can name it, but the module's functions
 	// (imported by others, sitting in tables, in flight) keep reading and writing it after the module is closed.
 	PrivMem bool `json:"priv_mem,omitempty"`
+	// Conc: a light importer of slot ImpTable's shared table and memory, instantiated K at a time from K goroutines
+	// (concinst step); install(idx) puts its own function cf (returns 100K+60+idx) into slot idx of the shared table.
+	Conc bool `json:"conc,omitempty"`
 	// Fail > 0: a module whose instantiation FAILS after its active element
 	// segment has written its own functions into the imported shared table
 	// (slots FailIdx, FailIdx+1): 1 = start function traps, 2 = start function
 	// exits the module with code 2 through host.exit. It exports nothing.
 	Fail    int `json:"fail,omitempty"`
 	FailIdx int `json:"fail_idx,omitempty"`
+}
+
+// stSum appends st_sum(base, n): sum of call_indirect through slots base..base+n-1 of table 0.
+func stSum(m *wenc.Module, t0 uint32) {
+	c := &wenc.Code{}
+	c.Block(0x40).Loop(0x40)
+	c.LocalGet(2).LocalGet(1).Op(0x4f).BrIf(1) // i32.ge_u
+	c.LocalGet(3).LocalGet(0).LocalGet(2).Op(0x6a).CallIndirect(t0, 0).Op(0x6a).LocalSet(3)
+	c.LocalGet(2).I32Const(1).Op(0x6a).LocalSet(2)
+	c.Br(0).End().End()
+	c.LocalGet(3).End()
+	idx := m.AddFunc([]wenc.ValType{i32, i32}, []wenc.ValType{i32}, []wenc.ValType{i32, i32}, c.B)
+	m.ExportFunc("st_sum", idx)
+}
+
+func buildConcModule(s ModSpec) []byte {
+	m := &wenc.Module{}
+	m.Imports = append(m.Imports, wenc.Import{Module: slotName(s.ImpTable), Name: "st", Kind: wenc.ExtTable,
+		Table: wenc.TableType{Elem: funcref, Lim: wenc.Limits{Min: stMin, Max: stMax, HasMax: true}}})
+	m.Imports = append(m.Imports, wenc.Import{Module: slotName(s.ImpTable), Name: "mem", Kind: wenc.ExtMemory,
+		Mem: wenc.Limits{Min: 1, Max: 3, HasMax: true}})
+	t0r := []wenc.ValType{i32}
+	t0 := m.AddType(nil, t0r)
+	m.Globals = []wenc.Global{{Type: wenc.GlobalType{Type: i32, Mutable: true}, Init: wenc.ConstI32(0)}}
+	cf := m.AddFunc(nil, t0r, nil, (&wenc.Code{}).GlobalGet(0).I32Const(int32(s.K*100+60)).Op(0x6a).End().B)
+	m.ExportFunc("cf", cf)
+	m.ExportFunc("install", m.AddFunc([]wenc.ValType{i32}, nil, nil,
+		(&wenc.Code{}).LocalGet(0).GlobalSet(0).LocalGet(0).RefFunc(cf).TableSet(0).End().B))
+	m.ExportFunc("st_call", m.AddFunc([]wenc.ValType{i32}, t0r, nil, (&wenc.Code{}).LocalGet(0).CallIndirect(t0, 0).End().B))
+	stSum(m, t0)
+	m.Elems = append(m.Elems, wenc.Elem{Mode: 2, FuncIdx: []uint32{cf}})
+	return m.Encode()
 }
 
 // buildFailModule: imports st from slot ImpTable, elem (i32.const FailIdx) = [ff0 ff1], start fails.
@@ -66,7 +101,7 @@ func slotName(i int) string { return fmt.Sprintf("m%d", i) }
 
 const (
 	ptMin, ptMax = 4, 12
-	stMin, stMax = 4, 8
+	stMin, stMax = 24, 32 // shared table: slots 0-3 for the ordinary traffic, 4-23 for concurrently instantiated importers
 )
 
 var (
@@ -84,6 +119,9 @@ var (
 func buildModule(s ModSpec) []byte {
 	if s.Fail > 0 {
 		return buildFailModule(s)
+	}
+	if s.Conc {
+		return buildConcModule(s)
 	}
 	m := &wenc.Module{}
 	t0p, t0r := []wenc.ValType(nil), []wenc.ValType{i32}
@@ -214,6 +252,7 @@ func buildModule(s ModSpec) []byte {
 	}
 	if s.hasST() {
 		tblFuncs("st", st)
+		stSum(m, t0)
 	}
 	if hasImp {
 		exp("call_imp", nil, t0r, (&wenc.Code{}).Call(imp).I32Const(1).Op(0x6a))
